@@ -371,4 +371,171 @@ theorem scanStringGo_at (s : Src) (v : Bytes) (hv : validStrBody v = true) (p n 
     · rename_i heq; simp at heq; exact absurd heq hx10
     · rw [hgo]; simp; omega
 
+/-! ### the leaf forms of `get_inline_expression` -/
+
+theorem scanString_at (s : Src) (v : Bytes) (hv : validStrBody v = true) (p : Nat) (h : At s p (v ++ [34])) :
+    scanString s p = .ok () (p + v.length) := by
+  apply scanStringGo_at s v hv p _ h
+  rcases at_le h with h0 | h'
+  · simp at h0
+  · simp at h'; omega
+
+theorem getInline_str {s : Src} (hs : AsciiThenBoundary s) (v : Bytes) (hv : validStrBody v = true) (p n : Nat)
+    (ol : Bool) (h : At s p (34 :: (v ++ [34]))) :
+    getInline s (n + 1) ol p = .ok (.str ⟨p + 1, p + 1 + v.length⟩) (p + 1 + v.length + 1) := by
+  rw [at_cons] at h
+  have hq : s[p + 1 + v.length]? = some 34 := by
+    have := h.2; rw [at_append] at this; simpa [at_cons] using this.2
+  rw [getInline, h.1]
+  simp only [beq_self_eq_true, if_true]
+  rw [scanString_at s v hv (p + 1) h.2]
+  simp only [expectByte, isCurrentByte, hq, beq_self_eq_true, if_true, usub, show 1 ≤ p + 1 + v.length + 1 by omega,
+    Nat.add_sub_cancel]
+  rw [slice_ok (by omega) (bnd_succ hs h.1 (by decide)) (bnd_of_ascii hq (by decide))]
+
+theorem digit_facts : ∀ b : UInt8, isDigit b = true → b ≠ 34 ∧ b ≠ 45 ∧ isAlpha b = false := by
+  apply forall_uint8; decide +kernel
+
+theorem alpha_facts : ∀ b : UInt8, isAlpha b = true → b ≠ 34 ∧ isDigit b = false ∧ b ≠ 45 ∧ b ≠ 36 := by
+  apply forall_uint8; decide +kernel
+
+theorem validNumber_head {v : Bytes} (hv : validNumber v = true) :
+    (∃ d rest, v = d :: rest ∧ isDigit d = true) ∨ (∃ d rest, v = 45 :: d :: rest ∧ isDigit d = true) := by
+  obtain ⟨sign, ip, frac, rfl, hsign, hip, hipd, _⟩ := validNumber_decomp v hv
+  cases ip with
+  | nil => exact absurd rfl hip
+  | cons d ds =>
+    have hd := hipd d (by simp)
+    rcases hsign with rfl | rfl
+    · left; exact ⟨d, ds ++ frac, by simp, hd⟩
+    · right; exact ⟨d, ds ++ frac, by simp, hd⟩
+
+theorem getInline_num {s : Src} (hs : AsciiThenBoundary s) (v : Bytes) (hv : validNumber v = true) (p n : Nat)
+    (ol : Bool) (h : At s p v) (hstop : StopAt s (p + v.length) numStop) :
+    getInline s (n + 1) ol p = .ok (.num ⟨p, p + v.length⟩) (p + v.length) := by
+  have hnum := getNumberLiteral_at hs p v hv h hstop
+  rcases validNumber_head hv with ⟨d, rest, rfl, hd⟩ | ⟨d, rest, rfl, hd⟩
+  · rw [at_cons] at h
+    obtain ⟨h1, _, _⟩ := digit_facts d hd
+    rw [getInline, h.1]
+    simp only [beq_iff_eq, h1, if_false, hd, if_true, hnum]
+  · simp only [at_cons] at h
+    obtain ⟨_, _, h3⟩ := digit_facts d hd
+    rw [getInline, h.1]
+    have : isIdentifierStart s (p + 1) = false := by simp [isIdentifierStart, h.2.1, h3]
+    simp only [this, Bool.and_false, hnum]
+    simp [isDigit]
+
+theorem getInline_var {s : Src} (hs : AsciiThenBoundary s) (id : Bytes) (hv : validIdent id = true) (p n : Nat)
+    (h : At s p (36 :: id)) (hstop : StopAt s (p + 1 + id.length) isIdentByte) :
+    getInline s (n + 1) false p = .ok (.var ⟨p + 1, p + 1 + id.length⟩) (p + 1 + id.length) := by
+  rw [at_cons] at h
+  rw [getInline, h.1]
+  simp only [getIdentifier_at hs (p + 1) id hv h.2 hstop]
+  simp [isDigit]
+
+theorem getCallArguments_none (s : Src) (n p : Nat) (h : s[skipBlank s p]? ≠ some 40) :
+    getCallArguments s (n + 1) p = .ok none (skipBlank s p) := by
+  rw [getCallArguments]
+  simp only [takeByteIf_no s _ 40 h]
+  simp
+
+theorem getAttributeAccessor_none (s : Src) (p : Nat) (h : s[p]? ≠ some 46) :
+    getAttributeAccessor s p = .ok none p := by
+  unfold getAttributeAccessor
+  simp only [takeByteIf_no s _ 46 h]
+  simp
+
+theorem getAttributeAccessor_some {s : Src} (hs : AsciiThenBoundary s) (p : Nat) (a : Bytes) (hv : validIdent a = true)
+    (h : At s p (46 :: a)) (hstop : StopAt s (p + 1 + a.length) isIdentByte) :
+    getAttributeAccessor s p = .ok (some ⟨p + 1, p + 1 + a.length⟩) (p + 1 + a.length) := by
+  rw [at_cons] at h
+  unfold getAttributeAccessor
+  simp only [takeByteIf_yes s _ 46 h.1, if_true, getIdentifier_at hs (p + 1) a hv h.2 hstop]
+
+/-- what may follow a reference: after optional blanks, neither `(` nor `.` -/
+def NoCallNoAttr (s : Src) (q : Nat) : Prop := s[skipBlank s q]? ≠ some 40 ∧ s[skipBlank s q]? ≠ some 46
+
+theorem getInline_msg_none {s : Src} (hs : AsciiThenBoundary s) (id : Bytes) (hv : validIdent id = true) (p n : Nat)
+    (h : At s p id) (hstop : StopAt s (p + id.length) isIdentByte) (hf : NoCallNoAttr s (p + id.length)) :
+    getInline s (n + 2) false p = .ok (.msg ⟨p, p + id.length⟩ none) (skipBlank s (p + id.length)) := by
+  obtain ⟨b, rest, rfl, hb, _⟩ := validIdent_head hv
+  have h0 : s[p]? = some b := by rw [at_cons] at h; exact h.1
+  obtain ⟨h1, h2, h3, h4⟩ := alpha_facts b hb
+  rw [getInline, h0]
+  simp only [beq_iff_eq, h1, h2, h3, if_false, hb, if_true, Bool.false_eq_true,
+    getIdentifierUnchecked_at hs p _ hv h hstop, getCallArguments_none s n _ hf.1,
+    getAttributeAccessor_none s _ hf.2]
+  simp [h4]
+
+theorem skipBlank_at_byte (s : Src) (p : Nat) (c : UInt8) (h : s[p]? = some c) (h1 : c ≠ 32) (h2 : c ≠ 10) (h3 : c ≠ 13) :
+    skipBlank s p = p :=
+  skipBlank_stay s p (fun c' hc' => by rw [h] at hc'; cases hc'; exact ⟨h1, h2, h3⟩)
+
+theorem getInline_msg_some {s : Src} (hs : AsciiThenBoundary s) (id a : Bytes) (hv : validIdent id = true)
+    (ha : validIdent a = true) (p n : Nat) (h : At s p (id ++ 46 :: a))
+    (hstop : StopAt s (p + id.length + 1 + a.length) isIdentByte) :
+    getInline s (n + 2) false p =
+      .ok (.msg ⟨p, p + id.length⟩ (some ⟨p + id.length + 1, p + id.length + 1 + a.length⟩))
+        (p + id.length + 1 + a.length) := by
+  rw [at_append] at h
+  obtain ⟨h1, h2⟩ := h
+  have hdot : s[p + id.length]? = some 46 := by rw [at_cons] at h2; exact h2.1
+  obtain ⟨b, rest, e, hb, _⟩ := validIdent_head hv
+  have h0 : s[p]? = some b := by rw [e, at_cons] at h1; exact h1.1
+  obtain ⟨f1, f2, f3, f4⟩ := alpha_facts b hb
+  have hstop1 : StopAt s (p + id.length) isIdentByte := fun c hc => by rw [hdot] at hc; cases hc; decide
+  have hsb : skipBlank s (p + id.length) = p + id.length :=
+    skipBlank_at_byte s _ 46 hdot (by decide) (by decide) (by decide)
+  have hca : getCallArguments s (n + 1) (p + id.length) = .ok none (p + id.length) := by
+    have := getCallArguments_none s n (p + id.length) (by rw [hsb, hdot]; decide)
+    rw [hsb] at this; exact this
+  rw [getInline, h0]
+  simp only [beq_iff_eq, f1, f2, f3, if_false, hb, if_true, Bool.false_eq_true,
+    getIdentifierUnchecked_at hs p _ hv h1 hstop1, hca,
+    getAttributeAccessor_some hs (p + id.length) a ha h2 hstop]
+  simp [f4]
+
+theorem getInline_term_noargs {s : Src} (hs : AsciiThenBoundary s) (id : Bytes) (attr : Option Bytes)
+    (hv : validIdent id = true) (ha : optIdent attr = true) (p n : Nat) (h : At s p (45 :: (id ++ attrBytes attr)))
+    (hstop : StopAt s (p + 1 + id.length + (attrBytes attr).length) isIdentByte)
+    (hf : NoCallNoAttr s (p + 1 + id.length + (attrBytes attr).length)) :
+    getInline s (n + 2) false p =
+      .ok (.term ⟨p + 1, p + 1 + id.length⟩
+        (match attr with
+          | none => none
+          | some a => some ⟨p + 1 + id.length + 1, p + 1 + id.length + 1 + a.length⟩) none)
+        (skipBlank s (p + 1 + id.length + (attrBytes attr).length)) := by
+  rw [at_cons, at_append] at h
+  obtain ⟨h0, h1, h2⟩ := h
+  obtain ⟨b, rest, e, hb, _⟩ := validIdent_head hv
+  have hb0 : s[p + 1]? = some b := by rw [e, at_cons] at h1; exact h1.1
+  have his : isIdentifierStart s (p + 1) = true := by simp [isIdentifierStart, hb0, hb]
+  rw [getInline, h0]
+  simp only [his]
+  cases attr with
+  | none =>
+    simp only [attrBytes, List.length_nil, Nat.add_zero] at hstop hf ⊢
+    have hnd : s[p + 1 + id.length]? ≠ some 46 := by
+      intro hc
+      have hsb := skipBlank_at_byte s _ 46 hc (by decide) (by decide) (by decide)
+      exact hf.2 (by rw [hsb]; exact hc)
+    have := getIdentifierUnchecked_at hs (p + 1) id hv h1 hstop
+    simp only [show p + 1 + 1 = p + 2 by omega] at this
+    simp only [this, getAttributeAccessor_none s _ hnd, getCallArguments_none s n _ hf.1]
+    simp [isDigit]
+  | some a =>
+    simp only [optIdent] at ha
+    simp only [attrBytes, List.length_cons] at hstop hf h2 ⊢
+    have hdot : s[p + 1 + id.length]? = some 46 := by rw [at_cons] at h2; exact h2.1
+    have hstop1 : StopAt s (p + 1 + id.length) isIdentByte := fun c hc => by rw [hdot] at hc; cases hc; decide
+    have := getIdentifierUnchecked_at hs (p + 1) id hv h1 hstop1
+    simp only [show p + 1 + 1 = p + 2 by omega] at this
+    have e3 : p + 1 + id.length + 1 + a.length = p + 1 + id.length + (a.length + 1) := by omega
+    have hstop2 : StopAt s (p + 1 + id.length + 1 + a.length) isIdentByte := by rw [e3]; exact hstop
+    have hf2 : NoCallNoAttr s (p + 1 + id.length + 1 + a.length) := by rw [e3]; exact hf
+    simp only [this, getAttributeAccessor_some hs (p + 1 + id.length) a ha h2 hstop2,
+      getCallArguments_none s n _ hf2.1]
+    simp [isDigit, e3]
+
 end FluentProofs.Ser
